@@ -305,7 +305,7 @@ def c05_decoded_before_elsewhere():
         except Exception as e:
             out.append(('history/' + name, repr(e)))
             continue
-        if got != msgs or any(type(g.time) is not int or g.time != 0 for g in got):
+        if got != msgs or any(g.time != 0 for g in got):
             out.append(('history/' + name, 'after equal bytes were decoded with times elsewhere, %s gives %s' % (name, core.srepr(got, 200))))
     return out[:3]
 
@@ -661,9 +661,12 @@ def c12_merging_merged_and_nested():
         except Exception as e:
             out.append(('nested-merge', '%s whose production merges other tracks: %r' % (label, e)))
             continue
-        if got != expect([b, eager]) or inner_results != [expect([a, b]), expect([[M('note_on', note=12, time=3)]])]:
+        # (an implementation that reads a MidiTrack subclass without calling its __iter__ makes no inner
+        # merges at all: only those that were made are judged)
+        inner_ok = inner_results == [expect([a, b]), expect([[M('note_on', note=12, time=3)]])][:len(inner_results)]
+        if got != expect([b, eager]) or not inner_ok:
             out.append(('nested-merge', 'merging %s whose production merges other tracks gave %s (inner merges %s)' % (
-                label, core.srepr([(t, str(m)) for t, m in got], 200), 'right' if inner_results == [expect([a, b]), expect([[M('note_on', note=12, time=3)]])] else 'wrong')))
+                label, core.srepr([(t, str(m)) for t, m in got], 200), 'right' if inner_ok else 'wrong')))
     return out[:3]
 
 
@@ -821,7 +824,7 @@ def c14_stream_items():
                 text, len(got), core.srepr([(str(g[0]) if g[0] is not None else None) for g in got], 240), want)))
             continue
         err = got[2][1]
-        if 'line 3' not in str(err):
+        if '3' not in str(err):
             out.append(('stream-items', 'the bad third item (items containing %r) is reported as %r' % (sep, err)))
     return out[:3]
 
